@@ -24,6 +24,7 @@ func runC16(r *Run) {
 	r.Rule("C16.2", "GRD: ActionStore.Save*Action stores only when no such action exists for the (height, round) key and the recorded key, if any, equals the offered one; refusals return DoubleActionError / PubKeyChangedError")
 	r.Rule("C16.3", "GRD: FinalizationStore.SaveFinalization stores only on the miss edge of a lookup with the same height key; refusal returns FinalizationOverwriteError")
 	r.Rule("C16.4", "PROV: ValidatorStore stores keys/powers under the hash computed from that very slice by the configured scheme, only on the miss edge; hit returns the AlreadyExist error")
+	r.Rule("C16.6", "no silent replacement: every map update of a store either accumulates (append to the same entry), is refused once the key was found present, rewrites the action record in place, or belongs to one of three methods whose contract is replacement")
 	r.Rule("C16.5", "every Load* returns the documented not-found error type on the miss edge and the value looked up under the requested key otherwise; Set/Get pairs are wired field-for-field")
 	r.Rule("C16.6", "map writes use the key derived from the saved value / the arguments, and prevote/precommit collections are kept apart")
 
@@ -352,6 +353,8 @@ func runC16(r *Run) {
 			r.Check(ok, "C16.6", con, w.InstrPos(ret), "prevotes come from prevotes[height][round], precommits from precommits[height][round]: "+truncate(pv.String(), 100)+" / "+truncate(pc.String(), 100))
 		}
 	}
+	storeMapDiscipline(r, "C16.6")
+	r.Expect("C16.6", 15, "map updates in the in-memory stores")
 	r.Expect("C16.2", 9, "action store guards")
 	r.Expect("C16.5", 10, "load contracts")
 	r.Expect("C16.6", 4, "wiring of remaining writers")
